@@ -559,8 +559,12 @@ def clip_native_to_wngrid(native_grid, wngrid):
     max_wngrid = wngrid.max()
     #Compute the maximum width
     wnwidths = compute_bin_edges(wngrid)[-1]
-    wn_min = min_wngrid - wnwidths.max()
-    wn_max = max_wngrid + wnwidths.max()
+    # The outermost native points that are kept get their bin widths
+    # re-derived from a single neighbour, so those bins must stay clear
+    # of every requested bin: with native spacing below half the widest
+    # requested bin this needs a margin of 1.25 times that width
+    wn_min = min_wngrid - 1.25*wnwidths.max()
+    wn_max = max_wngrid + 1.25*wnwidths.max()
 
     native_filter = (native_grid >= wn_min) & (native_grid <= wn_max)
     return native_grid[native_filter]
